@@ -15,6 +15,7 @@ import (
 	"github.com/cuteLittleDevil/go-jt808/shared/consts"
 
 	"verif/harness/internal/core"
+	"verif/harness/internal/ref"
 	"verif/harness/internal/svc"
 )
 
@@ -113,6 +114,7 @@ type c11Conn struct {
 }
 
 var nearKeySends atomic.Int64
+var ghostSends atomic.Int64
 var c11ConnID atomic.Int64
 var c11Tag atomic.Uint32
 
@@ -142,6 +144,7 @@ func c11History(srv *svc.Server, c *core.Collector, seed uint64, hid int, base i
 	var mu sync.Mutex
 	var conns []*c11Conn
 	delivered := map[uint32]int{} // tag -> conn id that read it
+	ghosts := map[string]bool{}   // keys that appeared only as the phone of a second frame: nobody may own them
 	var sends []*c11Send
 	stopSend := make(chan struct{})
 	var swg sync.WaitGroup
@@ -348,6 +351,17 @@ func c11History(srv *svc.Server, c *core.Collector, seed uint64, hid int, base i
 					// an unsupported message first: the connection joins with its first HANDLED message
 					t.Write(t.Frame(0x0900, cn.firstSerial, []byte{1, 2, 3}))
 					t.Write(t.Frame(0x0002, 20000, nil))
+				} else if r.Chance(1, 4) {
+					// the first write carries a SECOND frame with another phone number (a "ghost" key nobody ever joins under): on the
+					// owner's connection it is just another message; a refused duplicate must not come back under the ghost key
+					ghost := cn.key + "77"
+					gb := svc.PhoneBCD(ghost, len(t.BCD))
+					first := t.Frame(0x0002, cn.firstSerial, nil)
+					second := ref.Build(ref.Params{ID: 0x0002, V2019: t.V2019, VersionByt: 1, BCD: gb, Serial: 30000})
+					t.Write(append(first, second...))
+					mu.Lock()
+					ghosts[ghost] = true
+					mu.Unlock()
 				} else {
 					t.Write(t.Frame(0x0002, cn.firstSerial, nil))
 				}
@@ -416,6 +430,20 @@ func c11History(srv *svc.Server, c *core.Collector, seed uint64, hid int, base i
 	}
 	close(stopSend)
 	swg.Wait()
+	// nobody ever joined under a ghost key: a command to it must come back "not exist" (also after everything has left)
+	mu.Lock()
+	var gl []string
+	for g := range ghosts {
+		gl = append(gl, g)
+	}
+	mu.Unlock()
+	for _, g := range gl {
+		res := sendCmd(srv.G, g, consts.P8103SetTerminalParams, []byte{1, 0, 0, 0xF0, 0x03, 4, 0, 0, 0, 0}, 25*time.Millisecond, 25*time.Millisecond+slackFor(25*time.Millisecond))
+		ghostSends.Add(1)
+		if res.kind != "notexist" {
+			bad("registry|a key that only ever appeared as the phone of a later frame of some connection is registered", fmt.Sprintf("ghost key %s: SendActiveMessage -> %s", g, res.kind))
+		}
+	}
 	end := svc.Stamp() + 1
 	if svc.RaceMode { // C18 drives this workload without the logical clock: no history to check
 		mu.Lock()
@@ -600,6 +628,7 @@ func c11Worker(c *core.Collector, x *Ctx) {
 			c.Evals(int64(nops))
 			c.Count("histories", 1)
 			c.Counter("sends_to_look_alike_keys_that_nobody_owns").Store(nearKeySends.Load())
+			c.Counter("sends_to_ghost_keys_of_second_frames").Store(ghostSends.Load())
 			c.NonTrivial(core.HashString(fmt.Sprintf("%d/%d/%x", x.Batch, h, th)))
 			vmu.Lock()
 			switch {
